@@ -280,6 +280,8 @@ func (c *FnCtx) enterLoop(bc *blockCtx, li *loopInfo, rr *regionRun) {
 			}
 			continue
 		}
+		wasLocal := c.localTouched[m.name]
+		c.foreignHavoc = !wasLocal
 		if m.whole || len(m.refs) > 6 {
 			c.heapHavoc(bc.st, m.name, srt)
 			c.note(fmt.Sprintf("loop %d: heap array %s havoced as a whole", li.ord, m.name))
@@ -290,8 +292,9 @@ func (c *FnCtx) enterLoop(bc *blockCtx, li *loopInfo, rr *regionRun) {
 				c.heapStore(bc.st, m.name, srt, r, f)
 			}
 		}
+		c.foreignHavoc = false
 		// the function's frame condition is an implicit loop invariant (checked at every back edge)
-		if c.spec != nil && c.dry == 0 && bc.fr == c.top {
+		if c.spec != nil && c.dry == 0 && bc.fr == c.top && (wasLocal || strings.HasPrefix(m.name, "G:~")) {
 			nv := c.heapGet(bc.st, m.name, srt)
 			if f, ok := c.frameFormula(bc.fr, m.name, nv, c.entryTargets(bc.fr, c.spec), "r!f", "k!f"); ok {
 				c.sc.assert("(forall ((r!f Int) (k!f Int)) " + f + ")")
